@@ -35,7 +35,8 @@ theorem reach_inv (cfg : Cfg) (s : St) (h : Reach cfg s) : Inv cfg s := by
 
 /-- what has become of record `i` of channel `c` of message `m`.  The two documented exemptions are *per record*: they apply
 only to a recipient whose bounce paragraph was appended (`noted`) and was in `bounce/<m>` when that file was discarded
-(`droppedRecs`, only for a message from `#@[]`: `C03_dropped_only_doublebounce`) or damaged by a crash (`lostRecs`). -/
+(`droppedRecs`, only for a message from `#@[]`: `C03_dropped_only_doublebounce`) or damaged by a crash (`lostRecs`; only by a
+`crashBounce` accepted in the crash window right after a crash: `C03_lost_step`, `C03_lost_after_crash`). -/
 def Fate (ms : MsgSt) (c : Ch) (i : Nat) : Prop :=
   -- still queued: an unmarked record of an existing channel file; the message still has its info file and its message file
   (∃ rs, ms.chan c = some rs ∧ i < rs.length ∧ (rs.getD i ⟨false, []⟩).done = false ∧ addrs rs = MsgSt.placed ms c ∧
